@@ -97,12 +97,22 @@ def objectdb_case(n):
         p.close()
         p2 = project_mod.Project(root, save_history=True, save_objectdb=True)
         after = dump(p2.pycore.object_info.objectdb.db)
+        # second session: more information about a module the db already knows (no new file entry)
+        res2 = p2.get_resource("mod.py")
+        res2.write(res2.read() + "r6 = f(C(), %d)\nr7 = g('x%d')\n" % (n, n))
+        p2.pycore.run_module(res2).wait_process()
+        p2.pycore.analyze_module(res2)
+        before2 = dump(p2.pycore.object_info.objectdb.db)
         p2.close()
         p3 = project_mod.Project(root, save_history=True, save_objectdb=True)
         again = dump(p3.pycore.object_info.objectdb.db)
+        if before2 == after:
+            return {"machinery": "second session added no object information", "item": n}
+        ok = (before == after) and (before2 == again)
         entries = sum(len(ci) + len(pn) for f_ in before.values() for ci, pn in f_.values())
-        return {"equal": before == after == again, "entries": entries,
-                "before": repr(before)[:1500], "after": repr(after)[:1500]}
+        return {"equal": ok, "entries": entries,
+                "before": repr(before2 if before == after else before)[:1500],
+                "after": repr(again if before == after else after)[:1500]}
     finally:
         common.rmtree(root)
 
